@@ -19,6 +19,12 @@ int vh_log_i; double vh_log_d;
 #ifndef XD_NR
 #define XD_NR 0
 #endif
+#ifndef XD_NRHS
+#define XD_NRHS 1
+#endif
+/* with two right-hand sides B and X get different leading dimensions and padding rows (sentinels) */
+#define LDB (NN + (XD_NRHS > 1 ? 1 : 0))
+#define LDX (NN + (XD_NRHS > 1 ? 2 : 0))
 #define EPS 1.1102230246251565e-16
 int_t sp_ienv(int_t i) { return 1; }
 static int live;
@@ -48,7 +54,7 @@ double dPivotGrowth(int_t ncols, SuperMatrix *A, int_t *perm_c, SuperMatrix *L, 
 double dlangs(char *norm, SuperMatrix *A) { ++c_langs; langs_norm = *norm; langs_A = A; return 1.0; }
 void dgscon(char *norm, SuperMatrix *L, SuperMatrix *U, double anorm, double *rcond, int_t *info) { ++c_con; con_norm = *norm; *rcond = con_rcond; *info = 0; }
 void dgstrs(trans_t trans, SuperMatrix *L, SuperMatrix *U, int_t *perm_r, int_t *perm_c, SuperMatrix *B, Gstat_t *G, int_t *info)
-{ int i; ++c_solve; s_solve = ++seq; solve_trans = trans; solve_B = B; for (i = 0; i < NN; ++i) Xv[i] = 16.0 + 8.0 * i; *info = 0; }
+{ int i; ++c_solve; s_solve = ++seq; solve_trans = trans; solve_B = B; { int jj; for (jj = 0; jj < XD_NRHS; ++jj) for (i = 0; i < NN; ++i) Xv[i + jj * LDX] = 16.0 + 8.0 * i + 64.0 * jj; } *info = 0; }
 void dgsrfs(trans_t trans, SuperMatrix *A, SuperMatrix *L, SuperMatrix *U, int_t *perm_r, int_t *perm_c, equed_t equed, double *R, double *C,
             SuperMatrix *B, SuperMatrix *X, double *ferr, double *berr, Gstat_t *G, int_t *info)
 { ++c_rfs; s_rfs = ++seq; rfs_trans = trans; rfs_A = A; rfs_equed = equed; *info = 0; }
@@ -58,7 +64,7 @@ int_t superlu_dQuerySpace(int_t P, SuperMatrix *L, SuperMatrix *U, int_t w, supe
 VH_MAIN
 {
     static SuperMatrix A, L, U, B, X; static NCformat ast; static DNformat bst, xst;
-    static double aval[4], bval[NN], xval[NN], b0[NN], R[NN], C[NN], ferr[1], berr[1], rpg, rcond;
+    static double aval[4], bval[LDB * XD_NRHS], xval[LDX * XD_NRHS], b0[LDB * XD_NRHS], R[NN], C[NN], ferr[XD_NRHS], berr[XD_NRHS], rpg, rcond;
     static int_t rowind[4], colptr[NN + 1], perm_c[NN], perm_r[NN];
     static superlumt_options_t opt; static superlu_memusage_t mu;
     int_t info = 99, nprocs = vh_int_in(1, 2);
@@ -71,9 +77,11 @@ VH_MAIN
     vh_assume(opt.fact != FACTORED || opt.lwork == 0);
     ast.nnz = 0; ast.nzval = aval; ast.rowind = rowind; ast.colptr = colptr;
     A.Stype = nr ? SLU_NR : SLU_NC; A.Dtype = SLU_D; A.Mtype = SLU_GE; A.nrow = NN; A.ncol = NN; A.Store = &ast;
-    bst.lda = NN; bst.nzval = bval; xst.lda = NN; xst.nzval = xval; Xv = xval; g_ldx = NN;
-    B.Stype = SLU_DN; B.Dtype = SLU_D; B.Mtype = SLU_GE; B.nrow = NN; B.ncol = 1; B.Store = &bst; X = B; X.Store = &xst;
-    for (i = 0; i < NN; ++i) { bval[i] = 3.0 + 2.0 * i; b0[i] = bval[i]; xval[i] = -1.0; R[i] = 2.0; C[i] = 4.0; }
+    bst.lda = LDB; bst.nzval = bval; xst.lda = LDX; xst.nzval = xval; Xv = xval; g_ldx = LDX;
+    B.Stype = SLU_DN; B.Dtype = SLU_D; B.Mtype = SLU_GE; B.nrow = NN; B.ncol = XD_NRHS; B.Store = &bst; X = B; X.Store = &xst;
+    for (i = 0; i < NN; ++i) { R[i] = 2.0; C[i] = 4.0; }
+    for (i = 0; i < LDB * XD_NRHS; ++i) { bval[i] = 3.0 + 2.0 * i; b0[i] = bval[i]; }
+    for (i = 0; i < LDX * XD_NRHS; ++i) xval[i] = -1.0;
     /* outcomes of the callees */
     equ_info = vh_int_in(0, 1) ? 0 : 1;
     laq_out = (equed_t)vh_int_in(0, 3);
@@ -101,10 +109,13 @@ VH_MAIN
     if (expect_fact) vh_assert(s_order < s_fact, "preprocessing precedes the factorization");
     /* right-hand side scaled by the factor that matches the transpose sense */
     for (i = 0; i < NN; ++i) {
-        double want = b0[i];
-        if (notran_eff && rowequ) want = b0[i] * R[i];
-        if (!notran_eff && colequ) want = b0[i] * C[i];
-        vh_assert(bval[i] == want, "B is scaled by R (no-transpose sense) or C (transpose sense) exactly when the flag says so");
+        int jj;
+        for (jj = 0; jj < XD_NRHS; ++jj) {
+            double want = b0[i + jj * LDB];
+            if (notran_eff && rowequ) want = b0[i + jj * LDB] * R[i];
+            if (!notran_eff && colequ) want = b0[i + jj * LDB] * C[i];
+            vh_assert(bval[i + jj * LDB] == want, "B is scaled by R (no-transpose sense) or C (transpose sense) exactly when the flag says so");
+        }
     }
     if (expect_fact && opt.lwork == -1) {
         vh_assert(c_solve == 0 && c_rfs == 0 && c_con == 0, "workspace query performs no solve");
@@ -128,16 +139,20 @@ VH_MAIN
         vh_assert(solve_trans == NOTRANS || solve_trans == TRANS || solve_trans == CONJ, "transpose flag handed to the solve is one it accepts");
         vh_assert(rfs_equed == equed, "refinement is told how the system was equilibrated");
         for (i = 0; i < NN; ++i) {
-            double want = 16.0 + 8.0 * i;
-            if (notran_eff && colequ) want = want * C[i];
-            if (!notran_eff && rowequ) want = want * R[i];
-            vh_assert(xval[i] == want, "X is mapped back by C (no-transpose sense) or R (transpose sense)");
+            int jj;
+            for (jj = 0; jj < XD_NRHS; ++jj) {
+                double want = 16.0 + 8.0 * i + 64.0 * jj;
+                if (notran_eff && colequ) want = want * C[i];
+                if (!notran_eff && rowequ) want = want * R[i];
+                vh_assert(xval[i + jj * LDX] == want, "X is mapped back by C (no-transpose sense) or R (transpose sense)");
+            }
         }
         vh_assert(info == ((con_rcond < EPS) ? NN + 1 : 0), "info = n+1 exactly when rcond is below machine epsilon");
         vh_assert(rcond == con_rcond, "rcond returned");
         vh_assert(live == 0, "temporary column-wise wrapper and the permuted copy are released");
     }
     for (i = 0; i < NN; ++i) vh_assert(R[i] == 2.0 && C[i] == 4.0, "scale vectors unchanged by the driver");
+    { int jj; for (jj = 0; jj < XD_NRHS; ++jj) { for (i = NN; i < LDB; ++i) vh_assert(bval[i + jj * LDB] == b0[i + jj * LDB], "padding rows of B untouched"); for (i = NN; i < LDX; ++i) vh_assert(xval[i + jj * LDX] == -1.0, "padding rows of X untouched"); } }
     if (expect_fact && opt.lwork != -1 && fact_info <= NN) vh_assert(c_query == 1, "memory usage is reported whenever the factorization produced factors");
     VH_WITNESS();
     return 0;
